@@ -591,7 +591,7 @@ fn main() {
             seqs.extend(next.iter().cloned());
             level = next;
         }
-        let counter_modes = if cli.thorough { 9 } else { 3 };
+        let counter_modes = if cli.thorough { 13 } else { 4 };
         let total = seqs.len() as u64 * SIZES.len() as u64 * MASKS.len() as u64 * counter_modes;
         par_for(total, |i| {
             if !cli.mine(i) {
@@ -606,15 +606,17 @@ fn main() {
             x /= SIZES.len() as u64;
             let durations = seqs[x as usize].clone();
             let n = durations.len();
-            // counter modes: 0 none, 1 constant (bytes), 2 per-sample (bytes);
-            // thorough: the same for chars / cycles / items
+            // counter modes: 0 none; otherwise (kind, style) with style constant / per-sample distinct values /
+            // per-sample values with plateaus (runs of equal counts first, a different count later, the first value
+            // again after that); quick: the bytes kind, thorough: all four kinds
             let mut counters: [Option<Result<Vec<u64>, u64>>; 4] = [None, None, None, None];
             if cm > 0 {
-                let kind = (cm - 1) / 2 % 4;
-                counters[kind] = if (cm - 1) % 2 == 0 { Some(Err(77)) } else { Some(Ok((0..n).map(counter_for).collect())) };
-                if cm > 8 {
-                    counters[(kind + 1) % 4] = Some(Err(5));
-                }
+                let (kind, style) = ((cm - 1) / 3, (cm - 1) % 3);
+                counters[kind] = match style {
+                    0 => Some(Err(77)),
+                    1 => Some(Ok((0..n).map(counter_for).collect())),
+                    _ => Some(Ok((0..n).map(|k| [500u64, 500, 900, 900, 500, 700][k % 6]).collect())),
+                };
             }
             let inp = Inputs {
                 sample_size: size,
@@ -719,7 +721,7 @@ fn main() {
     }
     r.set_bounds(json!({
         "large_collections": "n in 6..=40, 63, 64, 99, 100, 101, 128 (thorough: ..=101, 200, 255..257, 511..513, 1000, 1024) x {ascending via strides, descending, organ pipe, every stride permutation} x {distinct, pairwise tied}",
-        "injected": {"durations_ps": DURS.iter().map(|d| d.to_string()).collect::<Vec<_>>(), "max_len": if cli.thorough {6} else {5}, "all_permutations_n": if cli.thorough {"6..=9"} else {"6, 7"}, "sample_sizes": SIZES, "tally_presence_masks": MASKS, "counter_modes": if cli.thorough {9} else {3}},
+        "injected": {"durations_ps": DURS.iter().map(|d| d.to_string()).collect::<Vec<_>>(), "max_len": if cli.thorough {6} else {5}, "all_permutations_n": if cli.thorough {"6..=9"} else {"6, 7"}, "sample_sizes": SIZES, "tally_presence_masks": MASKS, "counter_modes": if cli.thorough {13} else {4}},
         "loop": {"entries": 5, "cost_scripts": 7, "sample_counts": [0,1,2,3,4], "sample_sizes": [1,2,3,"tuned"], "overheads_ps": [0,3], "alloc_scripts": 3, "counter_setups": 10}
     }));
     r.emit();
